@@ -151,13 +151,11 @@ func runGrowth(thorough bool, res chan<- growthResult) {
 				report(key, fmt.Sprintf("family %s n=%d: %s", name, n, f.What), n)
 			}
 		}
-		pts, reps, death := measure(g, sizes, variant, budget)
-		for k := range pts {
-			findingsReport(reps[k], pts[k].N)
-		}
-		if death != nil && len(pts) > 0 {
-			deathReport(death, pts[len(pts)-1])
-		}
+		// stage 1: the three smallest sizes; the rest only if they show nothing (a quadratic
+		// family must not be driven to 64k/512k)
+		var pts []point
+		var death *workerOut
+		checked := 1
 		get := func(p point, c int) float64 {
 			switch c {
 			case 0:
@@ -169,46 +167,65 @@ func runGrowth(thorough bool, res chan<- growthResult) {
 			}
 			return float64(p.Deadline)
 		}
-		ctrNames := []string{"allocated bytes (TotalAlloc)", "allocations (Mallocs)", "connection reads", "deadline calls (responses processed)"}
-		for k := 1; k < len(pts) && violated == ""; k++ {
-			a, b := pts[k-1], pts[k]
-			if a.Outcome != "ok" || b.Outcome != "ok" {
-				continue
+		stages := [][]int{sizes[:3], sizes[3:]}
+		for _, st := range stages {
+			if violated != "" || death != nil || len(st) == 0 {
+				break
 			}
-			for c := range ctrNames {
-				r := ratio(get(a, c), get(b, c))
-				if r <= allocRatioMax {
+			p2, reps, d := measure(g, st, variant, budget)
+			base := len(pts)
+			pts = append(pts, p2...)
+			for k := range p2 {
+				findingsReport(reps[k], p2[k].N)
+			}
+			_ = base
+			ctrNames := []string{"allocated bytes (TotalAlloc)", "allocations (Mallocs)", "connection reads", "deadline calls (responses processed)"}
+			for k := checked; k < len(pts) && violated == ""; k++ {
+				a, b := pts[k-1], pts[k]
+				if a.Outcome != "ok" || b.Outcome != "ok" {
 					continue
 				}
-				// re-measure both sizes twice; the smallest ratio counts
-				best := r
-				for t := 0; t < 2; t++ {
-					p2, _, _ := measure(g, []int{a.N, b.N}, variant, budget)
-					if len(p2) == 2 && p2[0].Outcome == "ok" && p2[1].Outcome == "ok" {
-						if r2 := ratio(get(p2[0], c), get(p2[1], c)); r2 < best {
-							best = r2
+				for c := range ctrNames {
+					r := ratio(get(a, c), get(b, c))
+					if r <= allocRatioMax {
+						continue
+					}
+					// re-measure both sizes twice; the smallest ratio counts
+					best := r
+					for t := 0; t < 2; t++ {
+						p2, _, _ := measure(g, []int{a.N, b.N}, variant, budget)
+						if len(p2) == 2 && p2[0].Outcome == "ok" && p2[1].Outcome == "ok" {
+							if r2 := ratio(get(p2[0], c), get(p2[1], c)); r2 < best {
+								best = r2
+							}
 						}
 					}
+					if best > allocRatioMax {
+						report(growthKey(g, "superlinear-alloc"), fmt.Sprintf("family %s: %s grows %.2fx from n=%d to n=%d (%d -> %d bytes allocated, %d -> %d allocations) for an input that doubles (%d -> %d bytes); limit %.1fx", name, ctrNames[c], best, a.N, b.N, a.Alloc, b.Alloc, a.Mallocs, b.Mallocs, a.Bytes, b.Bytes, allocRatioMax), b.N)
+					}
 				}
-				if best > allocRatioMax {
-					report(growthKey(g, "superlinear-alloc"), fmt.Sprintf("family %s: %s grows %.2fx from n=%d to n=%d (%d -> %d bytes allocated, %d -> %d allocations) for an input that doubles (%d -> %d bytes); limit %.1fx", name, ctrNames[c], best, a.N, b.N, a.Alloc, b.Alloc, a.Mallocs, b.Mallocs, a.Bytes, b.Bytes, allocRatioMax), b.N)
+				if r := ratio(a.CPU, b.CPU); r >= cpuRatioMin && b.CPU >= 1.0 && violated == "" {
+					best := r
+					for t := 0; t < 5; t++ {
+						p2, _, _ := measure(g, []int{a.N, b.N}, variant, budget)
+						if len(p2) == 2 && p2[0].Outcome == "ok" && p2[1].Outcome == "ok" {
+							if r2 := ratio(p2[0].CPU, p2[1].CPU); r2 < best {
+								best = r2
+							}
+						} else {
+							best = 0
+						}
+					}
+					if best >= cpuRatioMin {
+						report(growthKey(g, "superlinear-cpu"), fmt.Sprintf("family %s: CPU time grows %.1fx from n=%d to n=%d (%.2fs -> %.2fs), smallest of 6 measurements", name, best, a.N, b.N, a.CPU, b.CPU), b.N)
+					}
 				}
 			}
-			if r := ratio(a.CPU, b.CPU); r >= cpuRatioMin && b.CPU >= 1.0 && violated == "" {
-				best := r
-				for t := 0; t < 5; t++ {
-					p2, _, _ := measure(g, []int{a.N, b.N}, variant, budget)
-					if len(p2) == 2 && p2[0].Outcome == "ok" && p2[1].Outcome == "ok" {
-						if r2 := ratio(p2[0].CPU, p2[1].CPU); r2 < best {
-							best = r2
-						}
-					} else {
-						best = 0
-					}
-				}
-				if best >= cpuRatioMin {
-					report(growthKey(g, "superlinear-cpu"), fmt.Sprintf("family %s: CPU time grows %.1fx from n=%d to n=%d (%.2fs -> %.2fs), smallest of 6 measurements", name, best, a.N, b.N, a.CPU, b.CPU), b.N)
-				}
+
+			checked = len(pts)
+			if d != nil && len(p2) > 0 {
+				death = d
+				deathReport(d, p2[len(p2)-1])
 			}
 		}
 		var probe *point
@@ -218,9 +235,16 @@ func runGrowth(thorough bool, res chan<- growthResult) {
 		}
 		if g.recursive && last.N < probeN && !strings.HasPrefix(last.Outcome, "stack-overflow") {
 			// "(" x 512k: does the recursion overflow a 64 MiB stack?
-			pp, rr, d := measure(g, []int{probeN}, variant, 60*time.Second)
+			pp, rr, d := measure(g, []int{probeN}, variant, 25*time.Second)
 			if len(pp) == 1 {
 				probe = &pp[0]
+				if violated != "" {
+					candMu.Lock()
+					if c := cands[violated]; c != nil && c.GrowthF == name {
+						c.What += fmt.Sprintf("; the same family at n=%d: %s", probeN, pp[0].Outcome)
+					}
+					candMu.Unlock()
+				}
 				if d != nil {
 					kind, _, _ := classifyDeath(d.stderr, d.timedOut)
 					if kind != "budget" && kind != "watchdog" {
